@@ -102,8 +102,8 @@ def _expand_chunk(items):
                 old = viols.get(sig)
                 if old is None or _hkey(h2) < _hkey(old[0]):
                     viols[sig] = (h2, msg)
-            if merged and not v and len(merges_seen) < 2:
-                merges_seen.append(h2)
+            if merged and not v:
+                merges_seen = sorted(merges_seen + [h2], key=_hkey)[:2]  # smallest, whatever the chunking
             if d != d0:
                 succ.append((d, h2))
             else:
@@ -245,10 +245,13 @@ def check(tier, seed, procs):
     for sig, (h, msg, name) in sorted(viols.items(), key=lambda kv: (_hkey(kv[1][0]), kv[0])):
         events = [list(e) for e in cw.dec_history(h)]
         still = _with_protection(h, sig, CONFIGS[name][0])
+        prompt = sig in per_cfg['two-prs-prompt-webhooks']['violation_signatures']
         msg = (f'{msg}; history={events}; '
                + ('GitHub accepts this merge even when branch protection (required review + required checks) binds the CI token'
                   if still else
-                  'needs a CI token that branch protection does not bind (with enforcement GitHub answers 405)'))
+                  'needs a CI token that branch protection does not bind (with enforcement GitHub answers 405)')
+               + ('; also reached when every GitHub webhook is delivered instantly' if prompt else
+                  '; not reached (within the bound) when every GitHub webhook is delivered instantly'))
         violations.append({'signature': sig, 'message': msg,
                            'replay': {'config': name, 'history': events, 'signature': sig}})
     merges = counters.get('merges', 0)
